@@ -37,6 +37,15 @@ def gen(chk, mpmath, rng):
                 which = rng.choice(["exp", "sin", "cos"])
                 F = {"exp": lambda s: 1 / (s + a), "sin": lambda s: a / (s ** 2 + a ** 2), "cos": lambda s: s / (s ** 2 + a ** 2)}[which]
                 vals = {}
+                # the fixed Talbot contour crosses the imaginary axis at about 0.63*degree/t: poles +-ai of the
+                # oscillatory transforms lie outside it when a*t is large ("can catastrophically fail for ...
+                # some oscillatory behaviors" in the method's documentation), so Talbot is only judged well inside
+                # (and de Hoog's Fourier sum at the default degree stops near 2*dps/t: observed 25% off for
+                # sin(4t) at t = 8, dps 15).  Poles on the imaginary axis with a large phase a*t are outside
+                # "singularities in the left half-plane ... or the accuracy documented": not judged.
+                if which != "exp" and a * T > mp.mpf(3 * dps) / 10:
+                    yield None
+                    continue
                 for m in ("talbot", "dehoog"):
                     v = mp.invertlaplace(F, T, method=m)
                     vals[m] = v.real if hasattr(v, "_mpc_") else v
